@@ -50,9 +50,15 @@ class Ellipsoid(CenteredScatterer):
         self.n = n
         if np.isscalar(r) or len(r) != 3:
             msg = ("r specified as {0}; "
-                   "r should be specified as (r_x, r_y, r_z)".format(center))
+                   "r should be specified as (r_x, r_y, r_z)".format(r))
             raise InvalidScatterer(self, msg)
         self.r = r
+        try:
+            if np.any(np.array(self.r) < 0):
+                raise InvalidScatterer(self, "a semi-axis is negative")
+        except TypeError:
+            # semi-axes given as priors are not checked, as for a Spheroid
+            pass
         if np.isscalar(rotation) or len(rotation) != 3:
             msg = ("rotation specified as {0}; rotation should be "
                    "specified as (alpha, beta, gamma)".format(rotation))
